@@ -463,6 +463,17 @@ async fn on_commitment_revocation(
     let proxy = plugin.state().lock().unwrap().proxy.clone();
 
     for (tower_id, net_addr, status) in towers {
+        // The same revocation may be notified more than once. Do not handle it again for the towers we already have a record for.
+        if plugin
+            .state()
+            .lock()
+            .unwrap()
+            .has_appointment(tower_id, locator)
+        {
+            log::debug!("{locator} was already handled for {tower_id}. Skipping");
+            continue;
+        }
+
         if status.is_reachable() {
             match http::add_appointment(tower_id, &net_addr, &proxy, &appointment, &signature).await
             {
